@@ -178,6 +178,31 @@ static void run_finv(const vf::Op& o, const vf::Case& c)
 		for (int i = 0; i < 4; i++)
 			for (int j = 0; j < 4; j++)
 				X(i, j) = Xi(i, j);
+		// compound / self-aliased forms: M *= M (both operands the same object), M = M * M, M = M.inverse(), M *= N
+		// each element of a product is a sum of 4 products: error <= 4 eps |row| |column| <= 4 eps |A|_F^2
+		LM AA = A * A;
+		ld ptol = 64 * Tol<T>::eps() * fn * fn;
+		asl::Matrix4_<T> C = M;
+		C *= C;
+		asl::Matrix4_<T> D = M;
+		D = D * D;
+		asl::Matrix4_<T> E = M;
+		E *= M;
+		asl::Matrix4_<T> F = M;
+		F = F.inverse();
+		ld e1 = 0, e2 = 0, e3 = 0, e4 = 0;
+		for (int i = 0; i < 4; i++)
+			for (int j = 0; j < 4; j++) {
+				e1 = std::max(e1, std::fabs((ld)C(i, j) - AA(i, j)));
+				e2 = std::max(e2, std::fabs((ld)D(i, j) - AA(i, j)));
+				e3 = std::max(e3, std::fabs((ld)E(i, j) - AA(i, j)));
+				e4 = std::max(e4, std::fabs((ld)F(i, j) - (ld)Xi(i, j)));
+			}
+		VF_CHECK(e1 <= ptol, "Matrix4_<", Tol<T>::name(), ">: M *= M differs from M * M (long double) by ", (double)e1, " > 64 eps |A|_F^2 = ", (double)ptol, " for ", show(A));
+		VF_CHECK(e2 <= ptol, "Matrix4_<", Tol<T>::name(), ">: M = M * M differs from the long double product by ", (double)e2, " for ", show(A));
+		VF_CHECK(e3 <= ptol, "Matrix4_<", Tol<T>::name(), ">: C *= M (C a copy of M) differs from the long double product by ", (double)e3, " for ", show(A));
+		VF_CHECK(e4 <= 64 * Tol<T>::eps() * ref::maxabs(X), "Matrix4_<", Tol<T>::name(), ">: M = M.inverse() differs from M.inverse() for ", show(A));
+		cls("finv.Matrix4.compound+aliased-forms");
 	}
 	else {
 		asl::Matrix3_<T> M;
